@@ -162,7 +162,7 @@ def _svd_generic(M, k_keep, full_matrices, routine_name, exact=True):
     key = (_key(M), k_keep, bool(full_matrices))
     if key in cache:
         c.stub_log.append({"stub": routine_name, "shape": [n, p], "k": k_keep, "cached": True})
-        return cache[key]
+        return tuple(x.copy() for x in cache[key])  # callers modify the factors in place
     M0 = witness_or_none(M)
     res0 = _safe(np.linalg.svd, M0, full_matrices=bool(full_matrices)) if M0 is not None else None
     if res0 is None:
@@ -207,7 +207,7 @@ def _svd_generic(M, k_keep, full_matrices, routine_name, exact=True):
                     tot = tot + Ro[i, j] * Vo[l, j].conjugate()
                 c.assume("eq", tot.p, f"{tag}: R V_k = 0")
     c.stub_log.append({"stub": routine_name, "shape": [n, p], "k": k_keep, "full_matrices": bool(full_matrices), "U": U, "s": s, "VT": VT, "M": M, "tag": tag})
-    cache[key] = (U, s, VT)
+    cache[key] = (U.copy(), s.copy(), VT.copy())
     return U, s, VT
 
 
@@ -271,7 +271,7 @@ def _np_inv(A):
     cache = c.caches.setdefault("inv", {})
     key = _key(A)
     if key in cache:
-        return cache[key]
+        return cache[key].copy()
     cplx = reported_dtype(A).kind == "c"
     A0 = witness_or_none(A)
     B0 = _safe(np.linalg.inv, A0) if A0 is not None else None
@@ -300,7 +300,7 @@ def _np_inv(A):
                 c.assume("eq", (t1 - (1 if i == j else 0)).p, f"inv#{idn}: A B = I")
                 c.assume("eq", (t2 - (1 if i == j else 0)).p, f"inv#{idn}: B A = I")
     c.stub_log.append({"stub": "np.linalg.inv", "shape": [n, n], "A": A, "B": B})
-    cache[key] = B
+    cache[key] = B.copy()
     return B
 
 
@@ -489,8 +489,11 @@ def promax_stub(X, power=1, max_iter=1000, rtol=1e-8, compute=True):
         R0 = phi0 = None
     else:
         Xr0, R0, phi0 = r0
-    idn = len(c.caches.setdefault("promax", {}))
-    c.caches["promax"][idn] = True
+    pcache = c.caches.setdefault("promax", {})
+    pkey = (_key(X), power)
+    if pkey in pcache:
+        return tuple(x.copy() for x in pcache[pkey])
+    idn = len(pcache)
     R = sym_array((m, m), f"R{idn}", cplx, None if R0 is None else np.asarray(R0), kind="stub")
     Ro = obj(R)
     tag = f"promax#{idn}"
@@ -516,6 +519,7 @@ def promax_stub(X, power=1, max_iter=1000, rtol=1e-8, compute=True):
                 c.assume("eq", (PG[a, b] - (1 if a == b else 0)).p, f"{tag}: phi (R^H R) = I")
     Xrot = X @ R
     c.stub_log.append({"stub": "promax", "shape": [p, m], "power": power, "R": R, "kwargs": {"power": power, "max_iter": max_iter, "rtol": rtol, "compute": compute}})
+    pcache[pkey] = (Xrot.copy(), R.copy(), phi.copy())
     return Xrot, R, phi
 
 
@@ -542,13 +546,17 @@ def sign_multiplier_stub(data, dim):
         c.on_witness = False
         w = np.ones(data.shape)
     ref = SIGN_REAL(data.copy(data=w), dim)
-    idn = len(c.caches.setdefault("sign", {}))
-    c.caches["sign"][idn] = True
+    cache = c.caches.setdefault("sign", {})
+    key = (_key(data.data), tuple(data.dims), str(dim))
+    if key in cache:
+        return ref.copy(data=cache[key].copy())
+    idn = len(cache)
     vals = np.asarray(ref.values, dtype=float)
     sg = sym_array(vals.shape, f"sg{idn}", False, vals, kind="stub")
     for x in sg.a.flat:
         c.assume("eq", (x * x - 1).p, "sign contract: sigma^2 = 1")
     c.stub_log.append({"stub": "get_deterministic_sign_multiplier", "shape": list(vals.shape)})
+    cache[key] = sg.copy()
     return ref.copy(data=sg)
 
 
